@@ -95,10 +95,11 @@ def build(tier="quick", seed=0):
 
     def src_sqlite(selector):
         db = SqlDb()
-        db.tables = {"c10/a": {"cols": [("n", "BIGINT"), ("s", "TEXT"), ("_source", "TEXT"), ("_classification", "TEXT"), ("_generated", "TIMESTAMPTZ"), ("_version", "BIGINT")], "rows": [(1, "a", None, None, None, 1), (2, "a  b", None, None, None, 1)]},
+        db.tables = {"c10/a": {"cols": [("n", "BIGINT"), ("s", "TEXT"), ("_source", "TEXT"), ("_classification", "TEXT"), ("_generated", "TIMESTAMPTZ"), ("_version", "BIGINT")], "rows": [(1, "a", None, None, None, 1), (2, "a  b", None, None, None, 1), (3, "c", None, None, None, 1)]},
                      "c10/b": {"cols": [("s", "TEXT")], "rows": [("z",)]}}
         it.vfs = {"/abs/c10.db": db}
-        return it.call(sq.g["SqliteReader"], ["/abs/c10.db"], {"selector": selector, "batch_size": 2}), 3
+        # (batch size 1: the first table spans three batches, so a batch without any matching row is followed by further batches)
+        return it.call(sq.g["SqliteReader"], ["/abs/c10.db"], {"selector": selector, "batch_size": 1}), 4
 
     SOURCES = {"stream": src_stream, "json": src_json, "avro": src_avro, "csv": src_csv, "sqlite": src_sqlite}
 
@@ -148,6 +149,32 @@ def build(tier="quick", seed=0):
                 name = f"C10.equiv[{kind}, {expr}, {form}]"
                 pack.add(Obligation(name, lambda tier, name=name, kind=kind, expr=expr, form=form: prove_paths(name, th_equiv(kind, expr, form), lambda p: (p.value[0] == p.value[1], f"reading with the selector yields {len(p.value[0])} record(s), reading everything and filtering afterwards keeps {len(p.value[1])}"), lambda m_, p: {}),
                                     replay=lambda w, kind=kind, expr=expr, form=form: {"call": "c10_equiv", "args": {"kind": kind, "expr": expr, "form": form}}, functions=FU, mode="representative selectors (negation, disjunction with a non-field operand, missing fields) x five readers x selector forms"))
+
+    # ------------------------------------------------------------------ the path-based entry point (RecordReader(<path>, selector=<text>)): a selector given as TEXT is the interpreted
+    #                                                                    selector there too - also for records on which the two engines are known to differ (an unset field under and / or)
+    def th_entry(expr):
+        def th():
+            A = it.call(RD, ["c10/a", [("varint", "n"), ("string", "s")]], {})
+            recs = [it.call(A, [], {"n": 5, "s": "a"}), it.call(A, [], {"n": None, "s": "b"}), it.call(A, [], {"n": 7, "s": ""}), it.call(A, [], {"n": 9, "s": "d"})]
+            fp = AbsFile(it, mode="wb")
+            w = it.call(st.g["RecordStreamWriter"], [fp], {})
+            for r in recs:
+                it.call(it.getattr_(w, "write"), [r], {})
+            it.vfs, it.vfs_auto = {"/abs/c10e.records": AbsFile(it, fp.content(), name="/abs/c10e.records", mode="rb")}, False
+            want = []
+            for r in recs:
+                fresh = it.call(sel.g["Selector"], [expr], {})
+                if it.truth(it.call(it.getattr_(fresh, "match"), [r], {})):
+                    want.append(it.unbase(r.attrs["s"]))
+            rd = it.call(base.g["RecordReader"], ["/abs/c10e.records"], {"selector": expr})
+            out, end = drain(it, it.iterate(rd))
+            return [it.unbase(r.attrs["s"]) for r in out], end if isinstance(end, str) else end[:2], want
+        return th
+
+    for expr in ("r.n > 6 and r.s", "r.n > 6 or r.s == 'b'", "not (r.n < 6) and r.s != 'zz'"):
+        name = f"C10.entry[RecordReader(<path>, selector=<text>), {expr}, a record with the field unset]"
+        pack.add(Obligation(name, lambda tier, name=name, expr=expr: prove_paths(name, th_entry(expr), lambda p: (p.value[0] == p.value[2] and p.value[1] == "stop", f"reading by path with the text selector yields {p.value[0]} (ended {p.value[1]}), testing each record afterwards keeps {p.value[2]}")),
+                            replay=lambda w, expr=expr: {"call": "c10_entry", "args": {"expr": expr}}, functions=FU + ("flow.record.base:RecordAdapter", "flow.record.base:RecordReader"), mode="path-based entry point, text selector"))
 
     # ------------------------------------------------------------------ make_selector
     def th_make():
